@@ -9,19 +9,7 @@ BASELINE_OFF = ("for m in $(cat /w/out/gomods.txt); do MF=$(cd /repo/$m && . /w/
                 "(cd /repo/$m && go test $MF -json -vet=off -count=1 -timeout 25m ./...); done")
 
 # property id -> claim; properties absent from CLAIMS go to not_applicable with NA[pid]
-CLAIMS = {
-    'C15': dict(
-        category='model_checking',
-        text=('ROB.tla is model-checked exhaustively (order, exactly-once, capacity, flush, payload, progress under '
-              'fairness) and bound to rob.ReorderBuffer in both directions: TLC behaviours are replayed as environment '
-              'scenarios on the real component and every port-event trace (replays + seeded adversarial environments with '
-              'out-of-order responses, back-pressure and flushes) must be a behaviour of the spec (ROBTrace.tla).'),
-        design_ref='DESIGN.md 4/C15',
-        note=('Trusted: TLC, akita v4.9.0 port hooks observing every message, the akitabench mini engine/connection '
-              'standing in for SerialEngine/DirectConnection. Bounded: model constants (Cap<=2, <=4 requests, 1 flush); '
-              'traces cover Cap 1..127, width 1..4.'),
-        technique='TLA+ spec + TLC model checking + trace validation of the real component (TLC) + behaviour replay'),
-}
+CLAIMS = {}
 
 NA = {}
 PENDING = 'check not built yet in this session (planned, see DESIGN.md section 10); not claimed until it exists'
@@ -34,6 +22,14 @@ def main():
     if os.path.exists(hc):
         hooks_commits = [l.split()[0] for l in open(hc) if l.strip() and not l.startswith('#')]
     checks, na = [], []
+    cdir = os.path.join(VERIF, 'checks')
+    for f in sorted(os.listdir(cdir)):
+        if f.endswith('.claim.json'):
+            c = json.load(open(os.path.join(cdir, f)))
+            CLAIMS[c['property_id']] = c
+    nadir = os.path.join(VERIF, 'checks', 'not_applicable.json')
+    if os.path.exists(nadir):
+        NA.update(json.load(open(nadir)))
     for p in props:
         pid = p['id']
         c = CLAIMS.get(pid)
